@@ -1028,6 +1028,8 @@ def run_calc_correction(cache, inputs, products, all_cal_freqs, skip, nchan=2, n
                                       all_cal_freqs, skip)
     except KeyError:
         return 'KeyError', None, corrprods
+    except Exception as e:       # noqa: BLE001 - anything else on an in-domain input is reported with the input
+        return 'raises:' + type(e).__name__, None, corrprods
     return list(final), corr, corrprods
 
 
@@ -1052,21 +1054,25 @@ def check_select(ctx, case):
     ok = [p for p in products if all(i in avail.get(p, ()) for i in inputs)]
     shape = 'skip=%s;missing=%s' % (skip, missing_shape(products, ok))
     if got != want:
-        ctx.disagree('kind=select;%s;symptom=%s' % (shape, 'error' if 'KeyError' in (got, want) else 'applied_list'),
+        ctx.disagree('kind=select;%s;symptom=%s' % (shape, symptom(got, want)),
                      case, got, mo, 'calc_correction does not apply exactly the requested products that are in the '
                      'data set (skipping) / does not insist on all of them (strict)', spec=want)
     if got != mo:
-        ctx.disagree('kind=select;%s;symptom=%s' % (shape, 'error' if 'KeyError' in (got, mo) else 'applied_list'),
+        ctx.disagree('kind=select;%s;symptom=%s' % (shape, symptom(got, mo)),
                      case, got, mo, 'calc_correction final_cal_products differ from the model', kind='tie')
     if isinstance(got, list):
         # the correction array must be made of exactly the products named: prod_p v_p^2
         exp = 1.0
         for p in got:
             exp *= value[p] ** 2
-        if (corr is None) != (not got) or (corr is not None and not np.all(
-                corr.compute(scheduler='synchronous') == np.complex64(exp))):
+        try:
+            arr = None if corr is None else corr.compute(scheduler='synchronous')
+        except Exception as e:       # noqa: BLE001
+            arr = 'raises:' + type(e).__name__
+        if (corr is None) != (not got) or (corr is not None and (isinstance(arr, str) or not np.all(
+                arr == np.complex64(exp)))):
             ctx.disagree('kind=select;%s;symptom=array_not_of_named_products' % shape, case,
-                         None if corr is None else show(corr.compute(scheduler='synchronous')), exp,
+                         arr if arr is None or isinstance(arr, str) else show(arr), exp,
                          'the corrections array is not the product of the corrections of final_cal_products')
     ctx.traces_validated += 1
     ctx.note_case(('P0', repr(case)), nontrivial=0 < len(ok) < len(products), sample=case if len(products) <= 3 else None)
@@ -1285,6 +1291,46 @@ def isolate_templates():
         del vd.VIRTUAL_SENSORS[k]
 
 
+def l2_product_mismatch(ctx, case, d):
+    """the self-cal product sensors of the data set must hold the solutions of ALL targets' substreams, merged by time:
+    Calibration/Products/l2/<gain type> (raw samples) against merge_substreams of what the fixture stored"""
+    from fixtures.c14streams import solution_offset
+    reg, l2 = spec_streams(case['tel'], case['archived'])
+    if 'l2' not in reg:
+        return None
+    by = {st['name']: (k, st) for k, st in enumerate(case['tel'])}
+    for t in ('G', 'GPHASE', 'GAMP_PHASE'):
+        if not all(n in by and t in by[n][1]['types'] for n in l2):
+            continue
+        streams = [[[q(Fr(solution_offset(by[n][0]))), [wire_opv((Fr(1, 2 ** (by[n][0] + 1)), Fr(0)))]]] for n in l2]
+        mo = streams[0] if len(streams) == 1 else ctx.model([[14, [7, streams]]])[0]
+        try:
+            sd = d.sensor.get('Calibration/Products/l2/' + t, extract=False).get()
+        except Exception as e:       # noqa: BLE001
+            return t, 'raises:' + type(e).__name__, mo
+        t0 = 1600000000.0 + 123.0
+        got = [[Fr((float(ts) - t0) / 2.0), complex(np.asarray(ComparableArrayWrapper.unwrap(v))[0, 0])]
+               for ts, v in zip(sd.timestamp, sd.value)]
+        if [g[0] for g in got] != [fq(m[0]) for m in mo] or not all(same(g[1], parse_opv(m[1][0])) for g, m in zip(got, mo)):
+            return t, [[str(g[0]), repr(g[1])] for g in got], mo
+    return None
+
+
+def spec_streams(tel, archived):
+    """(registered aliases, underlying L2 substreams) by the documented discovery rule"""
+    by = {st['name']: st for st in tel}
+    cals = [n for n in archived if n in by and by[n]['type'] == 'sdp.cal']
+    l1 = cals[0] if cals else 'cal'
+    imgs = [n for n in archived if n in by and by[n]['type'] == 'sdp.continuum_image' and by[n]['targets']]
+    l2 = ['%s_%s_selfcal' % (imgs[0], t) for t in by[imgs[0]]['targets']] if imgs else []
+    reg = []
+    for alias, attrs_of in (('l1', l1), ('l2', l2[0] if l2 else None)):
+        st = by.get(attrs_of)
+        if st is not None and st['ants'] and st['pols'] and st['spectral']:
+            reg.append(alias)
+    return reg, l2
+
+
 def check_opened(ctx, case, v=None):
     """katdal's VisibilityDataV4(applycal=request) on a synthetic telstate: stream discovery, registration, name
     expansion and skipping / rejecting of missing products, observed at d.applycal_products"""
@@ -1296,7 +1342,12 @@ def check_opened(ctx, case, v=None):
         v = v4.build_v4(T=case['T'], F=case['F'], ants=tuple(case['ants']), telstate_hook=streams_hook(case['tel']),
                         archived_override=case['archived'], construct=False, tmp=v4.scratch_dir('c14'))
     isolate_templates()
+    raw_bad = None
     try:
+        if case.get('raw'):
+            # on a data set opened without applycal: nothing has been extracted yet, the raw product is still there
+            raw_bad = l2_product_mismatch(ctx, case, v4.reopen(v, open_kwargs=dict(applycal='')))
+            isolate_templates()
         try:
             d = v4.reopen(v, open_kwargs=dict(applycal=req))
             got = list(d.applycal_products)
@@ -1304,6 +1355,8 @@ def check_opened(ctx, case, v=None):
             got = 'ValueError'
         except KeyError:
             got = 'KeyError'
+        except Exception as e:       # noqa: BLE001
+            got = 'raises:' + type(e).__name__
     finally:
         if own:
             v4.cleanup(v)
@@ -1321,6 +1374,10 @@ def check_opened(ctx, case, v=None):
                      'applycal_products of the opened data set are not the documented expansion of the request over '
                      'the L1 / L2 streams of the data set with missing products skipped / rejected',
                      spec=want if got != want else mspec)
+    if raw_bad:
+        ctx.disagree('kind=opened;streams=%s;product=l2.%s;symptom=selfcal_solutions_of_all_targets' % (
+            '+'.join(sreg) or 'none', raw_bad[0]), case, raw_bad[1], raw_bad[2],
+            'the self-cal product of the data set is not the time-ordered union of the solutions of every target')
     if got != mo or mreg != sreg:
         ctx.disagree(sig + ';symptom=%s' % (symptom(got, mo) if got != mo else 'registered_streams'), case, got,
                      [mreg, mo], 'applycal_products differ from the model of _register_standard_cal_streams + '
@@ -1393,8 +1450,8 @@ def run_opened(ctx, rng, n_sets, n_req):
         v = v4.build_v4(T=base['T'], F=base['F'], ants=tuple(base['ants']), telstate_hook=streams_hook(base['tel']),
                         archived_override=base['archived'], construct=False, tmp=v4.scratch_dir('c14'))
         try:
-            for req in opened_requests(rng, n_req):
-                check_opened(ctx, dict(base, kind='opened', request=req), v)
+            for k, req in enumerate(opened_requests(rng, n_req)):
+                check_opened(ctx, dict(base, kind='opened', request=req, raw=(k == 0)), v)
         finally:
             v4.cleanup(v)
 
@@ -1432,6 +1489,8 @@ def check_two_sets(ctx, case):
                 d, got = None, 'ValueError'
             except KeyError:
                 d, got = None, 'KeyError'
+            except Exception as e:       # noqa: BLE001
+                d, got = None, 'raises:' + type(e).__name__
             opened.append((cfg, v, d, got))
         for k, (cfg, v, d, got) in enumerate(opened):
             which = 'first' if k == 0 else 'later'
